@@ -17,6 +17,11 @@ Monitors
       in-place updates in between, one cotangent re-used for two backward passes, stride-0 cotangents (out.sum()/mean()),
       the same configurations in several call orders inside one process with one repeated at the end, batched == per item,
       transposed / strided / conjugate-view / permuted-batch / single-precision / real-dtype inputs.
+  (f) exact special values and API surface: circuits with all / some parameters exactly 0, pi/2, pi, 2pi and gates built with
+      args=None (the gate is exactly the identity), VarQEC and knill_laflamme_loss on the grid {L1, L2} x K in {1,2,3,4},
+      PSD inputs that are exactly the identity / a multiple of it / diagonal / degenerate (plus finite differences along Hermitian
+      directions), and every public entry point called positionally (shipped parameter order), with keywords, with explicit
+      defaults and with numpy scalars / tuple / list / set index forms, all required to give the same gradient.
 """
 import math
 import os
@@ -36,7 +41,10 @@ RULE = ('cases = (gate program | matrix input | model configuration, parameter p
         'input tensor, editing the previous result), one cotangent tensor re-used for two backward passes, losses built from '
         'out.sum()/mean() (stride-0 cotangent); the same configurations in three call orders inside one process (mixed-rank batch, '
         'full-rank batch, un-batched; qubit counts 4,1,3,2) with one repeated at the end; transposed / strided / conjugate-view / '
-        'permuted-batch / float32 / complex64 / real-dtype inputs judged against the reference of the VALUES')
+        'permuted-batch / float32 / complex64 / real-dtype inputs judged against the reference of the VALUES. Exact special values: '
+        'every 10th..3rd program has all/some angles exactly 0, pi/2, pi, 2pi or gates built with args=None; PSD inputs exactly I, c*I, '
+        'diagonal, degenerate; loss kinds {L1,L2} x num_logical_dim {1,2,3,4}; positional / keyword / explicit-default / numpy-scalar / '
+        'sequence-index call forms of the public entry points')
 EXHAUSTIVE = {'quick': False, 'thorough': False}
 EXHAUSTIVE_DOMAINS = {'quick': [], 'thorough': []}
 ASSUMPTIONS = [
